@@ -1882,8 +1882,8 @@ def _reconf_handler_creates_object():
     if ".new(" in lr or "Channel(" in lr:
         return "true"
     nw = [_src(n) for n in _body_nodoc(find("gateway_base.py", "ChannelFactory.new"))]
-    want_new = ["with self._writelock:\n    if self.finished:\n        raise OSError(f'connection already closed: {self.gateway}')\n    if id is None:\n        id = self.count\n        self.count += 2\n    try:\n        channel = self._channels[id]\n    except KeyError:\n        channel = self._channels[id] = Channel(self.gateway, id)\n        strconfig = self._strconfigs.pop(id, None)\n        if strconfig is None and id in self._callbacks:\n            strconfig = self._callbacks[id][2]\n        if strconfig is not None:\n            channel._strconfig = strconfig\n    return channel"]
-    want_lr = ["channel = self._channels.get(id)", "item = self._callbacks.get(id)", "if channel is not None:\n    channel._strconfig = strconfig", "if item is not None:\n    self._callbacks[id] = (item[0], item[1], strconfig)", "if channel is None and item is None:\n    self._strconfigs[id] = strconfig"]
+    want_new = ["with self._writelock:\n    if self.finished:\n        raise OSError(f'connection already closed: {self.gateway}')\n    if id is None:\n        id = self.count\n        self.count += 2\n    try:\n        channel = self._channels[id]\n    except KeyError:\n        channel = self._channels[id] = Channel(self.gateway, id)\n        strconfig = self._strconfigs.pop(id, None)\n        if id in self._callbacks:\n            channel._items = None\n            if strconfig is None:\n                strconfig = self._callbacks[id][2]\n        if strconfig is not None:\n            channel._strconfig = strconfig\n    return channel"]
+    want_lr = ["channel = self._channels.get(id)", "item = self._callbacks.get(id)", "if channel is not None:\n    channel._strconfig = strconfig", "if item is not None:\n    self._callbacks[id] = (item[0], item[1], strconfig)", "if channel is None and item is None:\n    self._strconfigs[id] = strconfig\n    while len(self._strconfigs) > 100:\n        del self._strconfigs[next(iter(self._strconfigs))]"]
     got_lr = [_src(n) for n in _body_nodoc(find("gateway_base.py", "ChannelFactory._local_reconfigure"))]
     if nw != want_new or got_lr != want_lr:
         raise ValueError("new() / _local_reconfigure: not the modelled shape")
